@@ -28,10 +28,12 @@ EXTENDS Naturals, Sequences, FiniteSets, TLC
 
 CONSTANTS Funded,      \* existing, funded accounts (they send the transactions)
           Fresh,       \* addresses with a key but no account yet
+          Keyless,     \* addresses NOBODY holds a key for: the zero address, 0xff..ff, a module account, a precompile
           Funder,      \* the account that pays the vesting creations (element of Funded)
           InitialUnits \* set of initial holdings [Addr -> Nat] (whole units of the cost)
 
-Addr == Funded \cup Fresh
+Keyed == Funded \cup Fresh
+Addr  == Keyed \cup Keyless
 
 (***************************************************************************)
 (* Signature kinds offered with a submission for address tgt.              *)
@@ -42,12 +44,25 @@ Addr == Funded \cup Fresh
 (*  genuine, other encodings: upper (upper-case hex), v27 (v + 27)         *)
 (*  forged: otherkey (another key, fixed message), othermsg (tgt's key,    *)
 (*    another message), random (65 random bytes), short (64 bytes), long   *)
-(*    (66 bytes), noprefix, nothex, empty                                  *)
+(*    (66 bytes), noprefix, nothex, empty;                                 *)
+(*    unrecoverable / degenerate 65-byte strings: zero65 (all 0x00), ff65  *)
+(*    (all 0xff), r0 (r = 0), s0 (s = 0);                                  *)
+(*    recovery ids other than the right one, on an otherwise genuine       *)
+(*    signature: vflip (the other of 0/1: recovers another key), vp2 (+2:  *)
+(*    2 or 3), vp4 (+4: 4 or 5), vx27 (the WRONG one of 27/28), vp31 (+31);*)
+(*    otherchain (tgt's key over the fixed message bound to the chain id), *)
+(*    eip191 (tgt's key over the wallet "personal message" wrapping);      *)
+(*    bysub (a perfectly valid signature - by the SUBMITTER's key)         *)
+(*  For a Keyless target "tgt's key" does not exist: the derived kinds are *)
+(*  then derived from the submitter's own signature, and every kind is     *)
+(*  forged.                                                                *)
 (***************************************************************************)
 Canonical    == {"valid", "valid2"}
 OtherEncoded == {"upper", "v27"}
 Genuine      == Canonical \cup OtherEncoded
-Forged       == {"otherkey", "othermsg", "random", "short", "long", "noprefix", "nothex", "empty"}
+OldForged    == {"otherkey", "othermsg", "random", "short", "long", "noprefix", "nothex", "empty"}
+NewForged    == {"zero65", "ff65", "r0", "s0", "vflip", "vp2", "vp4", "vx27", "vp31", "otherchain", "eip191"}
+Forged       == OldForged \cup NewForged \cup {"bysub"}
 (* Over-long accounts.  An account address on this chain may be longer than 20 bytes (bech32 of up to 255 bytes), while
    keys control 20-byte addresses.  A submission may name as `account` a byte string that merely CONTAINS addresses of the
    universe; o.tgt is then the other address involved ("victim"), o.sub the submitter:
@@ -60,6 +75,8 @@ Forged       == {"otherkey", "othermsg", "random", "short", "long", "noprefix", 
    these is a submission for a 20-byte address. *)
 LongForms    == {"L_ts_s", "L_ts_t", "L_st_s", "L_st_t", "L_32_s", "L_32_t"}
 SigKinds     == Genuine \cup Forged \cup LongForms
+KeyedSigs    == SigKinds \ {"bysub"}      \* (for tgt = sub, bysub would be the genuine signature: that case is "valid")
+KeylessSigs  == Forged
 
 (* what the store holds after a submission with sig was executed *)
 Stored(sig) == IF sig = "upper" THEN "valid" ELSE sig
@@ -78,8 +95,12 @@ Routes == {"top", "grant", "sametx"} \cup NestedRoutes
 
 Outcomes == {"refused", "failed", "ok"}
 
-SubmitOps == [op : {"Submit"}, sub : Funded, tgt : Addr, sig : SigKinds]
-CreateOps == [op : {"Create"}, kind : VestKinds, to : Addr, route : Routes]
+KeylessRoutes == {"top", "exec1", "sib_x_0_1", "grant", "sametx"}
+
+SubmitOps == [op : {"Submit"}, sub : Funded, tgt : Keyed, sig : KeyedSigs]
+               \cup [op : {"Submit"}, sub : Funded, tgt : Keyless, sig : KeylessSigs]
+CreateOps == [op : {"Create"}, kind : VestKinds, to : Keyed, route : Routes]
+               \cup [op : {"Create"}, kind : VestKinds, to : Keyless, route : KeylessRoutes]
 Ops == SubmitOps \cup CreateOps
 
 (***************************************************************************)
@@ -100,7 +121,8 @@ SubmitRegular(st, o) ==
   ELSE {"ok"}
 
 SubmitOutcomes(st, o) ==
-  IF o.sig \in LongForms THEN {"refused", "failed"} \cup (IF st.q[o.sub] >= 1 THEN {"ok"} ELSE {})   \* not the property's business
+  IF o.tgt \in Keyless THEN {"refused", "failed"}           \* P: no signature whatsoever is "by the key controlling that address"
+  ELSE IF o.sig \in LongForms THEN {"refused", "failed"} \cup (IF st.q[o.sub] >= 1 THEN {"ok"} ELSE {})   \* not the property's business
   ELSE IF o.sig \in Forged THEN {"refused", "failed"}            \* P: stored only with a signature by the key controlling the address over the fixed message
   ELSE IF o.sub = o.tgt THEN {"refused", "failed"} \cup SubmitRegular(st, o)   \* D: x/vauth refuses submitter = account; the property is silent
   ELSE IF o.sig \in OtherEncoded THEN {"refused", "failed"} \cup SubmitRegular(st, o)  \* D: only the canonical encoding has to be taken
@@ -132,7 +154,7 @@ vars == <<proof, kind, q, burnt>>
 St == [proof |-> proof, kind |-> kind, q |-> q, burnt |-> burnt]
 
 TypeOK == /\ proof \in [Addr -> {"none"} \cup Genuine]
-          /\ kind \in [Addr -> {"none", "base"} \cup VestKinds]
+          /\ kind \in [Addr -> {"none", "base", "module", "contract"} \cup VestKinds]
           /\ q \in [Addr -> Nat]
           /\ burnt \in Nat
 
